@@ -595,10 +595,12 @@ def same(fn, a, b, keep=()) -> bool:
         return False
 
 
-def same_bool(fn, a, b) -> bool:
+def same_bool(fn, a, b, expand_b=True) -> bool:
+    """Boolean equivalence up to the canonical form; `b` (usually the expected text) is expanded at the site of `a` unless
+    expand_b is False (then its names are taken literally)."""
     a, b = _parse(a), _parse(b)
     use = a if hasattr(a, "_p") else (b if hasattr(b, "_p") else None)
-    return _bool(expand(fn, a, use=use)) == _bool(expand(fn, b, use=use))
+    return _bool(expand(fn, a, use=use)) == _bool(expand(fn, b, use=use) if expand_b else b)
 
 
 def literals(fn, n):
